@@ -12,6 +12,8 @@ Generated definitions
   check_new_child  in_potential_parents accept n_children max_children  (_check_if_new_child:
         guards in source order with the comparison operator of the source)
   advertised  username has_parent parent_root parent_level    (_get_advertised_branch_values)
+  take_as_parent  has_parent is_child                      (_check_if_new_parent: condition for _set_parent, else disconnect)
+  parent_update_tells_server : bool                        (else-branches of the two branch handlers)
   legacy_code_ok code                                      (distributed code test of the legacy carrier)
   server_search_own_filtered / dist_search_own_filtered / legacy_search_own_filtered : bool
         whether the handler (in distributed.py AND search/manager.py) returns early when the
@@ -254,6 +256,61 @@ def tr_advertised(fn):
             f' if has_parent then {blk(top.body)} else {ret(body[2])}.\n')
 
 
+
+def tr_take_as_parent(fn):
+    """_check_if_new_parent: `if <complete>: if <cond>: await self._set_parent(peer) else: await peer.connection.disconnect(...)`;
+    <cond> over `not self.parent` and `peer not in self.children`."""
+    body = _strip(fn.body)
+    if len(body) != 1 or not isinstance(body[0], ast.If) or body[0].orelse:
+        raise Refuse('_check_if_new_parent shape')
+    if _src(body[0].test) != 'peer.branch_level is not None and peer.branch_root is not None':
+        raise Refuse('_check_if_new_parent: completeness test changed: ' + _src(body[0].test))
+    inner = _strip(body[0].body)
+    if len(inner) != 1 or not isinstance(inner[0], ast.If):
+        raise Refuse('_check_if_new_parent inner shape')
+    i = inner[0]
+    if [_src(x) for x in _strip(i.body)] != ['await self._set_parent(peer)'] or \
+            [_src(x) for x in _strip(i.orelse)] != ['await peer.connection.disconnect(reason=CloseReason.REQUESTED)']:
+        raise Refuse('_check_if_new_parent branches changed')
+
+    def cond(t):
+        if isinstance(t, ast.BoolOp):
+            op = 'andb' if isinstance(t.op, ast.And) else 'orb'
+            parts = [cond(v) for v in t.values]
+            r = parts[-1]
+            for q in reversed(parts[:-1]):
+                r = f'({op} {q} {r})'
+            return r
+        m = {'not self.parent': '(negb has_parent)', 'self.parent is None': '(negb has_parent)', 'self.parent': 'has_parent',
+             'peer not in self.children': '(negb is_child)', 'peer in self.children': 'is_child'}
+        if _src(t) in m:
+            return m[_src(t)]
+        refuse(t, '_check_if_new_parent condition')
+    return ('(* a peer with complete branch values becomes the parent (true) or is disconnected (false) *)\n'
+            f'Definition take_as_parent (has_parent is_child : bool) : bool := {cond(i.test)}.\n')
+
+
+def tr_parent_update(cls):
+    """else-branch (message from the current parent) of the two branch handlers: children only, or server then children."""
+    res = []
+    for name in ('_on_distributed_branch_level', '_on_distributed_branch_root'):
+        fn = find_func(cls.body, name)
+        last = _strip(fn.body)[-1]
+        if not (isinstance(last, ast.If) and _src(last.test) == 'peer != self.parent'
+                and [_src(x) for x in _strip(last.body)] == ['await self._check_if_new_parent(peer)']):
+            raise Refuse(f'{name}: dispatch on `peer != self.parent` changed')
+        got = [_src(x) for x in _strip(last.orelse)]
+        if got == ['await self._notify_children_of_branch_values()']:
+            res.append(False)
+        elif got == ['await self._notify_server_of_parent()', 'await self._notify_children_of_branch_values()']:
+            res.append(True)
+        else:
+            raise Refuse(f'{name}: handling of updates from the parent changed: {got}')
+    if res[0] != res[1]:
+        raise Refuse('branch level and branch root handlers treat updates of the parent differently')
+    return ('(* an update from the current parent is advertised to the server (then the children), or to the children only *)\n'
+            f'Definition parent_update_tells_server : bool := {"true" if res[0] else "false"}.\n')
+
 # ---------------------------------------------------------------- search carriers: own-name filters
 def _own_filter(fn, user_expr='message.username') -> bool:
     """True iff the handler returns before doing anything when message.username is the session user."""
@@ -308,6 +365,8 @@ def translate(src: Path) -> dict:
     out.append(tr_check_new_child(find_func(cls.body, '_check_if_new_child')) + '\n')
     tr_add_child(find_func(cls.body, '_add_child'))
     out.append(tr_advertised(find_func(cls.body, '_get_advertised_branch_values')) + '\n')
+    out.append(tr_take_as_parent(find_func(cls.body, '_check_if_new_parent')) + '\n')
+    out.append(tr_parent_update(cls) + '\n')
 
     # legacy carrier: code test
     leg = find_func(cls.body, '_on_distributed_server_search_request')
